@@ -219,7 +219,14 @@ def check_plan(ctx: Ctx, case: dict) -> None:
     from moptipyapps.ttp.game_plan import GamePlan
     from moptipyapps.ttp.game_plan_space import GamePlanSpace
     from moptipyapps.ttp.instance import Instance
-    inst = Instance.from_resource(case["inst"])
+    if isinstance(case["inst"], dict):  # built by the public constructor
+        nn, rr = int(case["inst"]["n"]), int(case["inst"]["rounds"])
+        dm = np.array([[min(abs(i - j), nn - abs(i - j)) for j in range(nn)]
+                       for i in range(nn)], dtype=np.int64)
+        inst = Instance("gen", dm, [f"T{i + 1}" for i in range(nn)], rr,
+                        1, 3, 1, 3, 1, rr * nn - 1)
+    else:
+        inst = Instance.from_resource(case["inst"])
     n, days = int(case["n"]), int(case["days"])
     if inst.n_cities != n or (n - 1) * inst.rounds != days:
         raise HarnessError("plan case does not match the shipped instance")
@@ -240,7 +247,7 @@ def check_plan(ctx: Ctx, case: dict) -> None:
     flat = [v for row in case["plan"] for v in row]
     nt = min(flat) < 0 < max(flat) and 0 in flat
     ctx.rec.case(case, nontrivial=nt, labels=[
-        "obj=plan", f"plan_teams={n}",
+        "obj=plan", f"plan_teams={n}", f"plan_rounds={inst.rounds}",
         *(["plan_two_digit"] if max(map(abs, flat)) >= 10 else [])])
 
 
@@ -414,9 +421,23 @@ def _is_f13_symptom(a: Any, b: Any) -> bool:
         and b.mean_arith == a
 
 
+def _reordered(m: Any, mode: int) -> dict:
+    """The same mapping with another key (insertion) order."""
+    keys = list(m)
+    keys = keys[::-1] if mode == 1 else keys[1:] + keys[:1]
+    return {k: m[k] for k in keys}
+
+
 def check_results_table(ctx: Ctx, case: dict) -> None:
     from moptipyapps.binpacking2d import packing_result as pr
     res = build_results(case)
+    ko = int(case.get("key_order", 0))
+    if ko:  # records assembled by a caller that fills its mappings otherwise
+        res = [sut("PackingResult()", pr.PackingResult, r.end_result,
+                   r.n_items, r.n_different_items, r.bin_width, r.bin_height,
+                   _reordered(r.objectives, ko),
+                   _reordered(r.objective_bounds, ko),
+                   _reordered(r.bin_bounds, ko)) for r in res]
     tmp = tempfile.mkdtemp(prefix="vf_c19_")
     try:
         path = os.path.join(tmp, "results.txt")
@@ -469,6 +490,13 @@ def check_stats_table(ctx: Ctx, case: dict) -> None:
               for r in case["recs"]}
     require(len(stats) == len(groups),
             lambda: f"{len(groups)} setups, {len(stats)} statistics records")
+    ko = int(case.get("key_order", 0))
+    if ko:  # records assembled by a caller that fills its mappings otherwise
+        stats = [sut("PackingStatistics()", ps.PackingStatistics,
+                     q.end_statistics, q.n_items, q.n_different_items,
+                     q.bin_width, q.bin_height, _reordered(q.objectives, ko),
+                     _reordered(q.objective_bounds, ko),
+                     _reordered(q.bin_bounds, ko)) for q in stats]
     tmp = tempfile.mkdtemp(prefix="vf_c19_")
     try:
         path = os.path.join(tmp, "stats.txt")
